@@ -648,10 +648,10 @@ fn cmd_run() -> io::Result<()> {
         if l.is_empty() || l.starts_with('#') {
             continue;
         }
-        // watchdog: a case that does not return within 20 s kills the worker with SIGALRM; the
+        // watchdog: a case that does not return within 10 s kills the worker with SIGALRM; the
         // orchestrator attributes the death to exactly this case (C01: termination)
         // SAFETY: plain libc call
-        unsafe { alarm(20) };
+        unsafe { alarm(10) };
         let res = panic::catch_unwind(|| run_case(l));
         // SAFETY: plain libc call
         unsafe { alarm(0) };
